@@ -113,7 +113,8 @@ class DesignError(BaseException):
 
 #: Pattern for parsing COBOL ``USAGE`` and ``PICTURE`` clauses.
 clause_pattern = re.compile(
-    r"(?<![\w-])(?:(?:USAGE\s+)?(?:IS\s+)?"
+    r"(?<![\w-])(?:VALUE\s+(?:IS\s+)?(?:'[^']*'|\"[^\"]*\"|\S+)"
+    r"|(?:USAGE\s+)?(?:IS\s+)?"
     r"(?P<usage>BINARY|COMPUTATIONAL-1|COMPUTATIONAL-2|COMPUTATIONAL-3|COMPUTATIONAL-4|"
     r"COMPUTATIONAL|COMP-1|COMP-2|COMP-3|COMP-4|COMP|DISPLAY|PACKED-DECIMAL)"
     r"|(?:PIC|PICTURE)\s+(?:IS\s+)?(?P<picture>\S+))(?![\w-])"
